@@ -1,4 +1,20 @@
-"""C14  Text query parser: documented grammar, clean failure only."""
+"""C14  Text query parser: documented grammar, clean failure only.
+
+Atoms are data: the streams put every printable ASCII punctuation character, text that means something to
+%-formatting / str.format / string.Template / regular expressions / escapes (`%`, `%s`, `%(x)s`, `{}`, `{0}`, `\\`,
+NUL, ...), control characters and very long atoms (200 - 20000 characters) into atoms in every syntactic position,
+and a dedicated stream places a chosen token at the position a syntax error is reported AT (an atom can be the
+offending token only right after a `)`: `(a) X` -> EOF required, `((a) X)` -> `)` required).  Quoted strings
+carry each of the 29 white-space characters, the C0 controls, DEL, NEL, NBSP, zero-width space, BOM, LS/PS inside
+and glued to the quotes.
+
+Seeded C14_F (`_require` concatenates repr(token) into a %-format string) was missed before and is caught now
+(quick, seeds 0-3).  Two more of the class, both VIOLATION on quick seed 0:
+  a  parseQuery builds "Query contains only common words: " + repr(query) and applies `% ()` to it - needs a query
+     of ignorable atoms only that contains `%` (TypeError / ValueError escape, check_query raises)
+  b  the tokenizer regex caps an atom at 4096 characters (`[^()\\s"]{1,4096}`) - needs an atom longer than that
+     (it becomes two atoms: another tree)
+"""
 import re
 import sys
 
@@ -19,12 +35,22 @@ RULE = ("each case = 8 query strings x (parse, check, exec) against QueryParser(
         "(a) generated from the grammar (OrExpr/AndExpr/Term/ATOM+ with AND, AND NOT, NOT, parentheses to "
         "depth 4, hyphens, quoted phrases, punctuation-joined words, globs, stop words, mixed-case keywords, "
         "29 kinds of white space, up to ~14 tokens), (b) the same with 1-3 token-level edits (drop/insert/"
-        "swap/duplicate), (c) character noise over ( ) \" - * ? letters keywords Unicode spaces, (d) only "
+        "swap/duplicate; 25% of the inserted tokens are 'weird' atoms), (b') 8% error-position stream: a chosen "
+        "token (60% weird atom, 15% quoted string with control characters) right after a `)`, the query cut "
+        "where more is required, or a keyword / `)` after an operator, (c) character noise over ( ) \" - * ? "
+        "letters keywords Unicode spaces (half of it additionally over all ASCII punctuation, 80 format-like "
+        "fragments and 46 control / white-space characters), (d) only "
         "stop words / only negations / empty, (e) nesting to depth 5000 (balanced, unbalanced, alternating "
         "OR/AND so that the tree is deep too); extra: every token sequence of length <= 4 (thorough 5) over "
         "{AND OR NOT ( ) foo -bar the \"x y\" q*} and every string of length <= 5 (thorough 7) over "
-        "{( ) \" - a U+3000}; non-trivial = the case has an accepted query with an operator node and a "
-        "rejected one")
+        "{( ) \" - a U+3000}; 11% of all atoms are weird atoms (fragment alone / word+fragment / punctuation "
+        "run / two fragments / fragment+glob / 3%: one of 10 units repeated 200-20000 times), 5% quoted strings "
+        "with control characters (a quarter glued to a neighbour). Measured quick seed 0 (51200 generated queries): "
+        "tokens containing % 14921, containing { \\ or $ 16059, tokens >= 200 chars 1231, quoted strings with a "
+        "control / Unicode-space character 8495 (newline 712, NUL 436); ParseErrors reported AT an atom 1612 "
+        "(required-EOF 839, required-) 773), of which the atom has % 296, { 128, backslash 133, NUL 53, a control "
+        "character 182, >= 200 chars 30, is a quoted string 270; non-trivial = the case has an accepted query "
+        "with an operator node and a rejected one")
 TRUSTED = ["the lexicon is not modelled here: per ATOM token the real lexicon.parseTerms result is handed to the "
            "model as a cfg line (the lexicon itself is property C15)",
            "re-validated on every run over all 1 114 112 code points: the set matched by \\s, and that no "
